@@ -49,6 +49,12 @@ func (h *arbitrationHandler) Create(ctx context.Context, evt event.TypedCreateEv
 		return
 	}
 	job := evt.Object.(*v1alpha1.PodMigrationJob)
+	if job.Status.Phase == v1alpha1.PodMigrationJobFailed ||
+		job.Status.Phase == v1alpha1.PodMigrationJobSucceeded ||
+		job.Status.Phase == v1alpha1.PodMigrationJobAborted {
+		// a finished job seen again after a restart is not arbitrated again: a failing filter would mark it Failed
+		return
+	}
 	h.arbitrator.AddPodMigrationJob(job)
 }
 
